@@ -76,6 +76,7 @@ type Engine struct {
 	letOff      map[int]bool
 	effMethods  map[string]bool
 	effFuncTypes bool
+	modPkg      string // package of the contract whose modifies clause is being interpreted
 }
 
 type letBind struct{ name, term string }
